@@ -142,6 +142,18 @@ def check_create_index(rep, prog, fn):
         return
     mstores, vstores = stores[maps[0]], stores[vecs[0]]
     problems = []
+    # the index -> edge table is written through operator[]: it must have been given its size (resize / assign / sized construction); reserve()
+    # changes the capacity only - size() stays 0, the element writes are out of bounds and the copy operations copy nothing
+    sizing = [x for x in fn.walk() if x.k == 'CXXMemberCallExpr' and x.callee and x.object_arg() is not None and ex.var_of(x.object_arg()) == vecs[0] and
+              x.callee['name'] in ('resize', 'assign', 'reserve', 'clear', 'push_back', 'emplace_back', 'insert')]
+    grows = [x for x in sizing if x.callee['name'] in ('resize', 'assign', 'push_back', 'emplace_back', 'insert')]
+    ctor_sized = any('field' in ci and ci['field'] == vecs[0] and 'node' in ci and len(ci['node'].c) >= 1 for f_ in prog.functions
+                     if f_.j.get('rec_id') == fn.j.get('rec_id') and f_.fref.get('ctor') for ci in f_.ctor_inits)
+    if not grows and not ctor_sized and any(x.callee['name'] == 'reserve' for x in sizing):
+        rv_ = [x for x in sizing if x.callee['name'] == 'reserve'][0]
+        rep.violation('R16a', rv_, fn, what, '`%s` only reserves capacity: the table keeps size() == 0 while its slots are written through operator[] (out of bounds), and '
+                      'the copy constructor / assignment of the index copy an empty table' % rv_.text(40), key='R16a|%s|reserve-only' % fn.g)
+        return
     counters = {}
     for (d, keyn, valn) in mstores:
         c = ex.var_of(valn)
@@ -703,6 +715,36 @@ def _early_forest_complete(prog, fn, r, g):
     return ('ok', 'the early return fires after n - 1 tree edges (every vertex reached) in all %d graph shapes' % evaluated)
 
 
+def check_dimension_types(rep, prog):
+    """R16b (types): m - n + c is computed in one unsigned type.  The three members must be declared with the same type: when n and m are
+    declared with the graph's own size types (graph_traits<G>::vertices_size_type / edges_size_type - 32-bit for compact graph types) and
+    the component count with std::size_t, `m - n` wraps at 2^32 before it is widened, so every graph with m < n (forests, sparse graphs with
+    many components) gets dimension 2^32 + (m - n + c).  With adjacency_list all three are size_t, so nothing shows in the usual instantiation."""
+    what = 'the operands of m - n + c are declared with one and the same unsigned type'
+    n = 0
+    for rec in prog.records:
+        if not isinstance(rec, dict) or rec.get('g') != CLS or rec.get('fields') is None:
+            continue
+        rid = prog.records.index(rec)
+        fns = [f for f in prog.functions if f.j.get('rec_id') == rid and not f.implicit and f.body is not None and f.fref['name'] == 'cycle_space_dimension']
+        for f in fns:
+            n += 1
+            fields = []
+            for x in f.walk():
+                if x.k == 'MemberExpr' and x.decl_id is not None and prog.vars[x.decl_id].get('kind') == 'field' and x.decl_id not in fields:
+                    fields.append(x.decl_id)
+            spell = {fid: ((prog.type(prog.vars[fid].get('ty')) or {}).get('s') or '').replace('const ', '').strip() for fid in fields}
+            graph_dep = [fid for fid, sp in spell.items() if sp.split('::')[-1] in ('vertices_size_type', 'edges_size_type', 'degree_size_type')]
+            if len(set(spell.values())) > 1 and graph_dep:
+                rep.violation('R16b', f.body, f, what, 'members %s: `%s` is declared with a size type of the graph, another operand with %s - for a graph type whose size types '
+                              'are 32-bit the difference m - n wraps at 2^32 before it is widened (dimension 2^32 + true value whenever m < n)' % (
+                                  ', '.join('%s: %s' % (prog.vars[fid]['name'], sp) for fid, sp in spell.items()), prog.vars[graph_dep[0]]['name'],
+                                  [sp for fid, sp in spell.items() if fid not in graph_dep][0]), key='R16b|%s|mixed-types' % CLS)
+            else:
+                rep.ok('R16b', f.body, f, what, ', '.join(sorted(set(spell.values()))))
+    return n
+
+
 def check_self_references(rep, prog):
     """R16d (extension): a data member that holds iterators or pointers (a table of std::map iterators, raw pointers) into a sibling member is
     only valid for the object it was built in.  A copy operation that copies such a table member-wise - hand-written `x = other.x` or a
@@ -960,6 +1002,7 @@ def run_on(rep, prog):
     check_forest_emission(rep, prog)
     c17.check_copy_ops(rep, prog, CLS, 'R16d')
     check_self_references(rep, prog)
+    check_dimension_types(rep, prog)
     c04.check_forest_order(rep, prog)
     check_table_lifecycle(rep, prog)
     from . import c07
